@@ -291,9 +291,20 @@ func (w *World) observeLookups(n *Node, st *State, seed uint64) (out []obs) {
 		}
 		q = append(q, fresh)
 		q = padH(q)
+		switch r.Intn(12) {
+		case 0:
+			q = nil // an empty request: an empty answer
+		case 1:
+			q = q[:0]
+		case 2:
+			q = append(q, q[0], q[1]) // the same hashes asked twice in one request
+		}
 		var got []uint64
 		g := w.fp.begin("GetLeafHashPositions", q)
-		guard(func() error { got = n.mp.GetLeafHashPositions(q); return nil })
+		if err, _ := guard(func() error { got = n.mp.GetLeafHashPositions(q); return nil }); err != nil {
+			add("leafhashpositions-panic", "GetLeafHashPositions(%d hashes): %v", len(q), err)
+			return
+		}
 		g.end()
 		if len(got) != len(q) {
 			add("leafhashpositions-len", "GetLeafHashPositions returned %d entries for %d hashes", len(got), len(q))
